@@ -343,7 +343,7 @@ def run(ctx, res):
                         open(os.path.join(d, fn), 'w').write(content)
                     pr = impl.run_main(mp, margs + extra + ['test.case'], d, d)
                     runs = [('in process', pr)]
-                    if ('helper programs' in name and ' / ' not in name and (ci == 0 or not ctx.quick)) or rng.chance(0.004 if ctx.quick else 0.01):
+                    if ('helper programs' in name and ' / ' not in name and (ci == 0 or (not ctx.quick and ci < 6))) or rng.chance(0.004 if ctx.quick else 0.01):
                         # the same through the real entry point, as a process (what a user runs; output inherited by children
                         # of the program is only visible this way)
                         runs.append(('process', impl.run_cli(margs + extra + ['test.case'], d, sbx)))
